@@ -128,6 +128,9 @@ def check_vector(ctx, rng, st, flags):
         ctx.violation('base:fit-raised', 'Fitter.fit raised: %r' % (exc,), wit)
         return
     ctx.event('fit:base')
+    if int(base.source.n_data) != nfit:
+        ctx.violation('n_data-counts-other-flags', 'the number of fitted points counts flags other than 1 and 4',
+                      dict(wit, n_data=int(base.source.n_data), expected=nfit))
     bn = by_name(base)
     ctx.case((mode, tuple(flags.tolist()), ctx.shard, ctx.evaluations), nontrivial=bool(nontrivial),
              sample=wit if nontrivial else None)
